@@ -1,6 +1,15 @@
 import Hannibal.Monitor.Handles
 /-
   C05 — strong handles keep an actor alive, weak never do; last drop drains, then stops.
+
+  `monC05`  (proved for every run of the model, Props/C05.lean):
+     (1) the final `stopped` (and `finished`) of an actor begins only if somebody asked it to stop, it failed,
+         its stream ended, or no strong handle exists any more;
+     (3) upgrading a weak handle succeeds only while a strong holder exists (a handle, an in-flight
+         try_* / Caller::call operation, or a timer task in the middle of its send);
+     (4) timers never keep the actor alive: with no strong holder left a timer cannot go round again.
+  `monC05q` (trace-only): (2) no strong holder left, no stop, no failure ⇒ by quiescence the actor has handled
+         everything whose submission was acknowledged and has terminated gracefully.
 -/
 namespace Hannibal
 
@@ -11,72 +20,87 @@ structure C05St where
   restartsPending : Nat
   failure : Bool
   streamEnded : Bool
+  armed : List Nat             -- timers that have been armed at least once
+  sending : List Nat           -- timers whose closure ran and whose send may still be in flight (they own a strong sender)
+  deriving Repr, DecidableEq
+
+/-- operations that own a strong handle of their own while in flight -/
+def holderKind : OpKind → Bool
+  | .trySend _ | .tryCall _ | .tryHalt | .callw _ => true
+  | _ => false
+
+def issuesStop : Label → Bool
+  | .stopReq _ _ | .ctxStop _ => true
+  | .begin _ _ .halt | .begin _ _ .tryHalt | .begin _ _ .consume => true
+  | _ => false
+
+def bad05 (c : MonCtx) (st : C05St) : Label → Bool
+  -- (3) upgrading succeeds only while a strong holder exists
+  | .upgrade _ (some _) => !st.hold.strongHeld && st.inflight.isEmpty && st.sending.isEmpty
+  -- (4) with no strong holder left an `interval` cannot upgrade its weak sender any more
+  | .timerArm t _ =>
+    st.armed.contains t && !st.hold.strongHeld && st.inflight.isEmpty
+      && (st.sending.filter (fun x => x != t)).isEmpty && !st.sending.contains t
+  -- (1) nobody stopped it, it has not failed, a strong holder exists: it keeps running
+  | .cbBegin .stopped =>
+    st.restartsPending == 0 && st.hold.strongHeld && !st.stopIssued && !st.failure
+      && !(c.cfg.stream && st.streamEnded)
+  | .cbBegin .finished => st.hold.strongHeld && !st.stopIssued && !st.failure && !st.streamEnded
+  | _ => false
+
+def next05 (c : MonCtx) (st : C05St) (l : Label) : C05St :=
+  { hold := st.hold.step l
+    inflight := (match l with
+      | .begin o _ k => if holderKind k then o :: st.inflight else st.inflight
+      | .ret o _ | .cdrop o => st.inflight.filter (fun x => x != o)
+      | _ => st.inflight)
+    stopIssued := st.stopIssued || issuesStop l
+    restartsPending := (match l with
+      | .restartReq _ true | .ctxRestart true => st.restartsPending + 1
+      | .cbBegin .stopped => st.restartsPending - 1
+      | _ => st.restartsPending)
+    failure := st.failure || l.isFailure || (match l with | .cbAbandon _ => c.cfg.failOnTimeout | _ => false)
+    streamEnded := st.streamEnded || (match l with | .streamEnd => true | _ => false)
+    armed := (match l with | .timerArm t _ => t :: st.armed | _ => st.armed)
+    sending := (match l with
+      | .timerArm t _ | .timerEnd t => st.sending.filter (fun x => x != t)
+      | .fire t (some _) => t :: st.sending
+      | _ => st.sending) }
+
+def monC05 (c : MonCtx) : Mon C05St where
+  init := { hold := HoldSt.init c.h0 c.k0, inflight := [], stopIssued := false, restartsPending := 0, failure := false,
+            streamEnded := false, armed := [], sending := [] }
+  step st l := if bad05 c st l then none else some (next05 c st l)
+
+structure C05qSt where
+  hold : HoldSt
+  stopIssued : Bool
+  failure : Bool
+  streamEnded : Bool
   terminated : Bool
   graceful : Bool
   sends : List (Nat × Nat)
   sentOk : List Nat
   handled : List Nat
-  everEmpty : Bool             -- the strong-holder set was observed empty
-  armed : List Nat             -- timers that have been armed at least once
-  sending : List Nat           -- timers whose closure ran and whose send may still be in flight (they own a strong sender)
   deriving Repr, DecidableEq
 
-def monC05 (c : MonCtx) : Mon C05St where
-  init := { hold := HoldSt.init c.h0 c.k0, inflight := [], stopIssued := false, restartsPending := 0, failure := false,
-            streamEnded := false, terminated := false, graceful := false, sends := [], sentOk := [],
-            handled := [], everEmpty := false, armed := [], sending := [] }
+def monC05q (c : MonCtx) : Mon C05qSt where
+  init := { hold := HoldSt.init c.h0 c.k0, stopIssued := false, failure := false, streamEnded := false,
+            terminated := false, graceful := false, sends := [], sentOk := [], handled := [] }
   step st l :=
-    -- (3) upgrading succeeds only while a strong holder exists
-    let bad3 := (match l with
-      | .upgrade _ (some _) => !st.hold.strongHeld && st.inflight.isEmpty && st.sending.isEmpty
-      | _ => false)
-    -- timers never keep the actor alive: with no strong holder left an `interval` cannot upgrade its
-    -- weak sender any more, so it cannot go round again
-    let bad4 := (match l with
-      | .timerArm t _ =>
-        st.armed.contains t && !st.hold.strongHeld && st.inflight.isEmpty
-          && (st.sending.filter (fun x => x != t)).isEmpty && !st.sending.contains t
-      | _ => false)
-    let st := (match l with
-      | .timerArm t _ => { st with armed := t :: st.armed, sending := st.sending.filter (fun x => x != t) }
-      | .timerEnd t => { st with sending := st.sending.filter (fun x => x != t) }
-      | .fire t (some _) => { st with sending := t :: st.sending }
-      | _ => st)
-    if bad3 || bad4 then none else
-    let hold' := st.hold.step l
-    let inflight' := (match l with
-      | .begin o _ (.trySend _) | .begin o _ (.tryCall _) | .begin o _ .tryHalt | .begin o _ (.callw _) =>
-        o :: st.inflight
-      | .ret o _ | .cdrop o => st.inflight.filter (fun x => x != o)
-      | _ => st.inflight)
-    let st := { st with hold := hold', inflight := inflight', everEmpty := st.everEmpty || !hold'.strongHeld }
+    let st := { st with hold := st.hold.step l, stopIssued := st.stopIssued || issuesStop l,
+                        failure := st.failure || l.isFailure
+                          || (match l with | .cbAbandon _ => c.cfg.failOnTimeout | _ => false),
+                        terminated := st.terminated || l.terminates }
     match l with
-    | .stopReq _ _ | .ctxStop _ => some { st with stopIssued := true }
-    | .restartReq _ true | .ctxRestart true => some { st with restartsPending := st.restartsPending + 1 }
-    | .begin o _ k =>
-      let st := (match k with
-        | .halt | .tryHalt | .consume => { st with stopIssued := true }
-        | _ => st)
-      (match k with
-       | .send m | .trySend m => some { st with sends := (o, m) :: st.sends }
-       | _ => some st)
+    | .begin o _ (.send m) | .begin o _ (.trySend m) => some { st with sends := (o, m) :: st.sends }
     | .ret o .ok =>
       (match lookup o st.sends with
        | some m => some { st with sentOk := m :: st.sentOk }
        | none => some st)
     | .streamEnd => some { st with streamEnded := true }
-    | .cbBegin cb =>
-      let st := { st with graceful := false }
-      (match cb with
-       | .handle m => some { st with handled := m :: st.handled }
-       | .stopped =>
-         if st.restartsPending > 0 then some { st with restartsPending := st.restartsPending - 1 }
-         -- (1) nobody stopped it, it has not failed, a strong holder exists: it keeps running
-         else if st.hold.strongHeld && !st.stopIssued && !st.failure && !(c.cfg.stream && st.streamEnded)
-         then none else some st
-       | .finished =>
-         if st.hold.strongHeld && !st.stopIssued && !st.failure && !st.streamEnded then none else some st
-       | _ => some st)
+    | .cbBegin (.handle m) => some { st with graceful := false, handled := m :: st.handled }
+    | .cbBegin _ => some { st with graceful := false }
     | .cbEnd .stopped true => some { st with graceful := true }
     | .quiescent _ =>
       -- (2) no strong holder left, no stop, no failure: drained, then stopped gracefully
@@ -84,9 +108,6 @@ def monC05 (c : MonCtx) : Mon C05St where
       if !st.hold.strongHeld && !st.failure && !st.stopIssued && !(c.cfg.stream && st.streamEnded) then
         if st.terminated && st.graceful && st.sentOk.all (fun m => st.handled.contains m) then some st else none
       else some st
-    | l =>
-      let st := if l.isFailure || (match l with | .cbAbandon _ => c.cfg.failOnTimeout | _ => false)
-                then { st with failure := true } else st
-      if l.terminates then some { st with terminated := true } else some st
+    | _ => some st
 
 end Hannibal
